@@ -24,7 +24,8 @@ EXTENDS Naturals, Sequences, FiniteSets, TLC, Json
 
 Ops == {"create", "create_key_pair", "register", "derive_key", "locate", "get", "get_attributes", "get_attribute_list",
         "activate", "revoke", "destroy", "encrypt", "decrypt", "sign", "signature_verify", "mac",
-        "delete_attribute", "set_attribute", "modify_attribute", "check", "rekey"}
+        "delete_attribute", "set_attribute", "modify_attribute", "check", "rekey",
+        "get_wrapped"}        \* Get of a key that comes back wrapped: every sub-field of the key wrapping data is data of the response
 Resps == {"success", "failed", "failed_noop", "undone", "nobatch", "wrongop", "garbage", "empty"}
 Chunks == {"whole", "split_header", "bytewise", "eof_in_header", "eof_in_body"}
 Reasons == {"ITEM_NOT_FOUND", "PERMISSION_DENIED", "GENERAL_FAILURE", "CRYPTOGRAPHIC_FAILURE", "INVALID_FIELD"}
